@@ -571,18 +571,6 @@ def _digest_fed_and_returned(fa, pred):
     return False
 
 
-def fail_closed(ck):
-    """A rule group that could not run (vanished anchor, idiom not understood) must not pass silently behind the
-    property's recorded known findings: unless some NEW violation is being reported, the run is an analysis error."""
-    from ..report import split_known
-    if ck.analysis_errors and not split_known(ck)[1]:
-        # the entry point fails closed only when no obligation stands violated, and the recorded findings count as
-        # such: take them out of this (broken) run, so that it ends as ANALYSIS-ERROR instead of exit 0
-        for o in ck.obs:
-            if o.verdict == "violation":
-                o.verdict = "note"
-
-
 # --------------------------------------------------------------------------------- C01.R1
 def check_hash_input_coverage(ck, R):
     ck.rule(R, "hash-input coverage: every code-object attribute the interpreter consults when running a function, and "
